@@ -777,3 +777,357 @@ Section Step.
     Ok (mkVM (v_stack s) (v_slen s) (v_globals s) (mkFrame ip bp :: mkFrame (v_ip s) (f_bp cur) :: rest)
              ip bp (v_final s) (v_heap s) (v_gc s) (v_out s)).
   Proof. intros s ip bp cur rest H. unfold pushframe. rewrite H. reflexivity. Qed.
+
+  Ltac bools := repeat match goal with
+    | H : _ && _ = true |- _ => apply andb_prop in H; destruct H
+    | H : (_ <=? _) = true |- _ => apply Z.leb_le in H
+    | H : (_ <? _) = true |- _ => apply Z.ltb_lt in H
+    | H : true = true |- _ => clear H
+    end.
+
+  Ltac inv_opt H :=
+    match type of H with
+    | Some _ = Some _ => inversion H; subst; clear H
+    | None = Some _ => discriminate H
+    | match ?x with _ => _ end = Some _ => destruct x eqn:?; try discriminate H
+    end.
+
+  Ltac norm_width :=
+    repeat match goal with
+    | H : context [opwidth ?o] |- _ =>
+        let w := eval vm_compute in (opwidth o) in change (opwidth o) with w in H
+    end.
+
+  Ltac norm_assoc :=
+    repeat match goal with
+    | |- context [assoc opcode_eqb ?o ?t] =>
+        let r := eval vm_compute in (assoc opcode_eqb o t) in change (assoc opcode_eqb o t) with r
+    | H : context [assoc opcode_eqb ?o ?t] |- _ =>
+        let r := eval vm_compute in (assoc opcode_eqb o t) in change (assoc opcode_eqb o t) with r in H
+    end.
+
+  Ltac rd16_tac := erewrite read_u16_eq; [cbn [bind] | vmsimpl; reflexivity | eassumption].
+
+  Ltac u8_tac := erewrite read_u8_eq; [cbn [bind] | vmsimpl; reflexivity | eassumption].
+
+  Ltac pop_tac v r Hv Hw' :=
+    match goal with
+    | |- context [pop ?st] =>
+        let Hp := fresh "Hp" in
+        destruct (pop_eq st) as (v & r & Hp & Hv & Hw');
+        [first [assumption | repeat apply wf_upd_ip; assumption] | vmsimpl; lia | ];
+        rewrite Hp; cbn [bind]; clear Hp
+    end.
+
+  Ltac land_with Hsu :=
+    match type of Hsu with
+    | succ_ok _ ?m ?pc ?hb = true =>
+        eapply (lands' _ m pc hb); [ | reflexivity | vmsimpl; lia | exact Hsu | vmsimpl; lia]
+    end.
+  Ltac land := match goal with Hsu : succ_ok _ _ _ _ = true |- _ => land_with Hsu end.
+  Ltac wf_ip := repeat apply wf_upd_ip; assumption.
+
+  Ltac bin_tac :=
+    match goal with
+    | Hsu : succ_ok _ _ ?pc ?hb = true |- goodvm (binary _ _ _) =>
+        eapply (binary_good _ _ pc hb); [assumption | vmsimpl; lia | vmsimpl; lia | exact Hsu | vmsimpl; lia]
+    end.
+  Ltac fused_tac :=
+    match goal with
+    | Hsu : succ_ok _ _ ?pc ?hb = true, Hl : rd16 p (v_ip ?s + 1) = Some ?li, Hc : rd16 p (v_ip ?s + 3) = Some ?ci
+      |- goodvm (fused _ _ _ _) =>
+        eapply (fused_good _ _ li ci pc hb);
+        [assumption | exact Hl
+         | vmsimpl; replace (v_ip s + 1 + 2) with (v_ip s + 3) by lia; exact Hc
+         | lia | vmsimpl; lia | assumption | vmsimpl; lia | exact Hsu | vmsimpl; lia]
+    end.
+  Ltac push_tac :=
+    match goal with
+    | |- goodvm (Ok (push _ _)) => land; apply wf_push; [assumption | exact I]
+    end.
+
+  Ltac popn_tac vs stk Hvs Hw3 :=
+    match goal with
+    | |- context [pop_n ?n ?st ?acc] =>
+        let Hpn := fresh "Hpn" in
+        destruct (pop_n_eq n st acc) as (vs & stk & Hpn & Hvs & Hw3);
+        [wf_ip | vmsimpl; lia | constructor | ];
+        rewrite Hpn; cbn [bind]; clear Hpn
+    end.
+
+  Lemma step_good : forall s h l, Wf c s -> h <= v_slen s - v_bp s ->
+    instr_succs p (v_ip s) (mode s) h = Some l ->
+    forallb (fun '(pc', h') => succ_ok c (mode s) pc' h') l = true ->
+    good (step orc p s).
+  Proof.
+    intros s h l HW Hh Hs Hall.
+    pose proof (wf_len _ _ HW) as Hlen. pose proof (wf_bp _ _ HW) as Hbp.
+    unfold instr_succs in Hs. unfold step.
+    destruct (byte_at p (v_ip s)) as [b|]; [|discriminate Hs].
+    destruct (opcode_of_byte b) as [op|]; [|discriminate Hs].
+    destruct (negb _); [discriminate Hs|].
+    assert (HW1 : Wf c (upd_ip s (v_ip s + 1))) by (apply wf_upd_ip; exact HW).
+    unfold guard in Hs.
+    destruct op; norm_width; norm_assoc; cbv beta iota zeta in Hs |- *;
+      repeat inv_opt Hs; cbn [forallb] in Hall; bools;
+      try (apply good_cont); try solve [bin_tac]; try solve [fused_tac]; try solve [push_tac].
+    - (* OConst *)
+      rd16_tac.
+      match goal with Hc : const_in p ?z = true |- _ => destruct (get_const_eq z Hc) as (v & Hg & Hv) end.
+      rewrite Hg; cbn [bind].
+      assert (Hpush : goodvm (Ok (push v (upd_ip (upd_ip s (v_ip s + 1)) (v_ip s + 1 + 2))))).
+      { land. apply wf_push; [wf_ip|exact Hv]. }
+      destruct v; try exact Hpush.
+      apply goodvm_bind; [apply nf_get_str|]. intros t _.
+      match goal with
+      | |- context [with_new ?st ?r] =>
+          destruct (with_new_eq st r) as [g Hg']; rewrite Hg';
+          destruct (alloc_str_ok c (v_heap st) t) as [Hh' Hv']; [apply wf_heap; wf_ip|]
+      end.
+      land. apply wf_push; [|exact Hv']. apply wf_upd_heap; [wf_ip|exact Hh'].
+    - (* OPop *)
+      pop_tac v r Hv Hw'. land. apply wf_upd_final; assumption.
+    - (* ONot *)
+      pop_tac v r Hv Hw'. apply goodvm_bind; [apply nf_lognot|]. intros r' Hr. apply (lognot_ok c) in Hr.
+      land. apply wf_push; assumption.
+    - (* ONegate *)
+      pop_tac v r Hv Hw'. apply goodvm_bind; [apply nf_negate|]. intros [v' h'] Hn.
+      destruct (negate_ok c _ _ _ _ Hn) as [Hh' Hv']; [apply (wf_heap _ _ Hw')|].
+      match goal with |- context [with_new ?st ?r] => destruct (with_new_eq st r) as [g Hg']; rewrite Hg' end.
+      cbn [fst snd]. land. apply wf_push; [|exact Hv']. apply wf_upd_heap; assumption.
+    - (* OJump *)
+      rd16_tac. land. wf_ip.
+    - (* OJumpIfFalse *)
+      pop_tac v r Hv Hw'. destruct v; try exact I. rd16_tac.
+      destruct b0; land; wf_ip.
+    - (* OReturn *)
+      apply (return_good _ VNull (fun s1 => [v_final s1])); [assumption| |exact I].
+      match goal with Hm : mode s = true |- _ => exact Hm end.
+    - (* OReturnValue *)
+      pop_tac v r Hv Hw'.
+      apply (return_good _ v (fun s2 => [v_final s2; v])); [assumption| |assumption].
+      match goal with Hm : mode s = true |- _ => exact Hm end.
+    - (* OCall *)
+      u8_tac. pop_tac f r Hf Hw'. destruct f as [| | |ip n| | |]; try exact I.
+      match goal with |- context [n <? ?a] => destruct (n <? a) eqn:En; [exact I|] end.
+      destruct (_ || _); [exact I|].
+      match goal with |- context [?a <? ?b] => destruct (a <? b) eqn:Eu end.
+      { exfalso. apply Z.ltb_lt in Eu. vmsimpl. lia. }
+      apply Z.ltb_ge in En.
+      destruct (wf_frames _ _ HW) as (cur & rest & Hfr & Hcb & Hcs).
+      erewrite pushframe_eq by (vmsimpl; exact Hfr).
+      destruct Hf as (hf & Hlf & Hhf).
+      match goal with Hsu : succ_ok _ _ _ _ = true |- _ => apply succ_ok_spec in Hsu; destruct Hsu as (hr & Hlr & Hhr) end.
+      pose proof (wf_stack _ _ Hw') as Hst'. pose proof (wf_len _ _ Hw') as Hlen'.
+      vmsimpl.
+      cbn [goodvm]. split; [|split; [exact Hconsts|]].
+      + constructor; vmsimpl.
+        * unfold zlength in *. rewrite app_length, repeat_val_length. lia.
+        * lia.
+        * eexists; eexists. split; [reflexivity|]. split; [reflexivity|].
+          cbn [callers_ok f_ip f_bp]. split; [|split].
+          -- exists hr. split; [|lia]. rewrite Hlr. unfold mode. rewrite Hfr. destruct rest; reflexivity.
+          -- lia.
+          -- rewrite Hcb. exact Hcs.
+        * apply Forall_app. split; [apply repeat_val_Forall; exact I|exact Hst'].
+        * apply (wf_globals _ _ HW).
+        * apply (wf_final _ _ HW).
+        * apply (wf_heap _ _ HW).
+      + exists hf. unfold mode; vmsimpl. split; [exact Hlf|lia].
+    - (* OCallBuiltin *)
+      u8_tac.
+      match goal with
+      | Hb2 : byte_at p (v_ip s + 2) = Some ?a |- _ =>
+          rewrite (read_u8_eq _ (v_ip s + 2) a); [cbn [bind] | vmsimpl; lia | exact Hb2]
+      end.
+      popn_tac args stk Hargs Hw3.
+      match goal with Hb : builtin_of_byte _ = Some _ |- _ => rewrite Hb end.
+      apply goodvm_bind; [apply nf_call_builtin|]. intros [[v h'] printed] Hcb.
+      destruct (call_builtin_ok c _ _ _ _ _ _ _ Hcb) as [Hh' Hv']; [apply (wf_heap _ _ Hw3)|].
+      match goal with |- context [with_new ?st ?r] => destruct (with_new_eq st r) as [g Hg']; rewrite Hg' end.
+      cbn [fst snd]. land. apply wf_push; [|exact Hv']. apply wf_upd_out. apply wf_upd_heap; assumption.
+    - (* OGetLocal *)
+      rd16_tac.
+      match goal with
+      | |- context [get_local ?i ?st] =>
+          destruct (get_local_eq st i) as (v & Hg & Hv); [wf_ip|lia|vmsimpl; lia|]; rewrite Hg; cbn [bind]
+      end.
+      land. apply wf_push; [wf_ip|exact Hv].
+    - (* OSetLocal *)
+      rd16_tac. pop_tac v r Hv Hw'.
+      match goal with
+      | |- context [set_local ?i ?x ?st] =>
+          destruct (set_local_eq st i x) as (st' & Hsl & Hw''); [assumption|assumption|vmsimpl; lia|]; rewrite Hsl
+      end.
+      land. exact Hw''.
+    - (* OGetGlobal *)
+      rd16_tac. land. apply wf_push; [wf_ip|].
+      apply Forall_nth_default; [vmsimpl; apply (wf_globals _ _ HW)|exact I].
+    - (* OSetGlobal *)
+      rd16_tac. pop_tac v r Hv Hw'. land. apply wf_upd_globals; [assumption|].
+      apply replace_nth_Forall; [exact Hv|]. vmsimpl.
+      destruct (Nat.ltb _ _); [apply (wf_globals _ _ HW)|].
+      apply Forall_app. split; [apply (wf_globals _ _ HW)|apply repeat_val_Forall; exact I].
+    - (* OArray *)
+      rd16_tac. popn_tac vs stk Hvs Hw3. unfold h_alloc. cbv beta iota.
+      land. apply wf_push; [|exact I]. apply wf_upd_heap; [assumption|].
+      apply heap_ok_add; [apply (wf_heap _ _ Hw3)|exact Hvs].
+    - (* OIndexGet *)
+      pop_tac ix r1 Hv1 Hw1'. pop_tac lhs r2 Hv2 Hw2'.
+      match goal with
+      | Hsu : succ_ok _ _ ?pc ?hb = true |- _ =>
+          eapply (index_get_good _ _ _ pc hb); [assumption | vmsimpl; lia | exact Hsu | vmsimpl; lia]
+      end.
+    - (* OIndexSet *)
+      pop_tac va r1 Hv1 Hw1'. pop_tac ix r2 Hv2 Hw2'. pop_tac lhs r3 Hv3 Hw3'.
+      match goal with
+      | Hsu : succ_ok _ _ ?pc ?hb = true |- _ =>
+          eapply (index_set_good _ _ _ _ pc hb); [assumption | assumption | vmsimpl; lia | exact Hsu | vmsimpl; lia]
+      end.
+    - (* OHalt *)
+      vmsimpl. destruct (untrace (v_heap s) (v_gc s) (v_final s)) as [g'|k|f|] eqn:E; cbn [bind good]; try exact I.
+      eapply nf_untrace; exact E.
+  Qed.
+End Step.
+
+(** * Soundness of `check` *)
+
+Theorem verify_sound : forall orc p c, check p c = true ->
+  forall s, Inv p c s ->
+  match step orc p s with
+  | Fault f => c02_fault f = false
+  | Ok (Continue s') => Inv p c s'
+  | _ => True
+  end.
+Proof.
+  intros orc p c Hc s (HW & Hk & h & Hl & Hh).
+  pose proof (check_at _ _ _ _ Hc Hl) as Hci. unfold check_instr in Hci.
+  destruct (instr_succs p (v_ip s) (mode s) h) as [l|] eqn:Hs; [|discriminate Hci].
+  exact (step_good orc p c Hk s h l HW Hh Hs Hci).
+Qed.
+
+Theorem run_never_leaves_memory : forall orc p c, check p c = true ->
+  forall n s0, Inv p c s0 ->
+  forall r s k, run_loop orc p n s0 = (r, s, k) ->
+  forall f, r = Fault f -> c02_fault f = false.
+Proof.
+  intros orc p c Hc. induction n as [|n IH]; intros s0 HI r s k Hr f Hf; subst r; cbn [run_loop] in Hr.
+  - inversion Hr.
+  - pose proof (verify_sound orc p c Hc s0 HI) as Hstep.
+    destruct (step orc p s0) as [[s'|v s']|e|f0|].
+    + eapply IH; [exact Hstep|exact Hr|reflexivity].
+    + inversion Hr.
+    + inversion Hr.
+    + inversion Hr; subst. exact Hstep.
+    + inversion Hr.
+Qed.
+
+(** * The initial state *)
+
+Lemma heap_ok_empty : forall c, heap_ok c empty_heap.
+Proof. intros c l b vs H. cbn [cells empty_heap] in H. rewrite PM.gempty in H. discriminate H. Qed.
+
+Lemma load_consts_heap_ok : forall c ks h vs h', load_consts ks h = (vs, h') -> heap_ok c h -> heap_ok c h'.
+Proof.
+  intros c ks. induction ks as [|k r IH]; intros h vs h' H Hh; cbn [load_consts] in H.
+  - inversion H; subst; exact Hh.
+  - destruct k; unfold h_alloc in H;
+      match type of H with context [load_consts r ?h1] => destruct (load_consts r h1) as [vs2 h2] eqn:E end;
+      inversion H; subst; eapply IH; try exact E; try exact Hh;
+      (apply heap_ok_add; [exact Hh|exact I]).
+Qed.
+
+(* the machine as VM::run sets it up: empty stack, one frame, ip 0; any globals and any heap that hold only
+   certified function values, any collector state, any output *)
+Theorem inv_initial : forall p c gl h g out, check p c = true -> vals_ok c gl -> heap_ok c h ->
+  Inv p c (mkVM [] 0 gl [mkFrame 0 0] 0 0 VNull h g out).
+Proof.
+  intros p c gl h g out Hc Hgl Hh. split; [|split; [apply check_consts; exact Hc|]].
+  - constructor; vmsimpl.
+    + reflexivity.
+    + lia.
+    + exists (mkFrame 0 0), []. split; [reflexivity|]. split; [reflexivity|exact I].
+    + constructor.
+    + exact Hgl.
+    + exact I.
+    + exact Hh.
+  - destruct (check_entry0 _ _ Hc) as (h0 & Hl & Hle). exists h0. unfold mode; vmsimpl. split; [exact Hl|lia].
+Qed.
+
+(* globals all of whose function values are pool constants are fine *)
+Lemma globals_from_pool : forall p c gl, check p c = true ->
+  (forall ip n, In (VFun ip n) gl -> In (VFun ip n) (p_consts p)) -> vals_ok c gl.
+Proof.
+  intros p c gl Hc H. unfold vals_ok. apply Forall_forall. intros v Hin. destruct v; try exact I.
+  pose proof (check_consts _ _ Hc) as Hk. unfold vals_ok in Hk. rewrite Forall_forall in Hk. apply Hk. apply H. exact Hin.
+Qed.
+
+Corollary inv_vm_start : forall p c s consts h, check p c = true ->
+  vals_ok c (v_globals s) -> heap_ok c h -> Inv p c (vm_start s consts h).
+Proof. intros. unfold vm_start. apply inv_initial; assumption. Qed.
+
+Corollary inv_fresh_start : forall p c consts h, check p c = true -> heap_ok c h ->
+  Inv p c (vm_start vm_new consts h).
+Proof. intros. apply inv_vm_start; [assumption|constructor|assumption]. Qed.
+
+(** * End to end: what lib.rs::eval runs *)
+
+Lemma verify_check : forall p, verify p = true -> exists c, check p c = true.
+Proof. intros p H. unfold verify in H. destruct (infer p) as [c|]; [exists c; exact H|discriminate H]. Qed.
+
+Theorem verified_program_never_leaves_memory : forall orc bc budget f,
+  verify (mkProgram (b_code bc) (fst (load_consts (b_constants bc) empty_heap))) = true ->
+  o_result (run_program orc bc budget) = Fault f -> c02_fault f = false.
+Proof.
+  intros orc bc budget f Hv Hr. unfold run_program in Hr.
+  destruct (load_consts (b_constants bc) empty_heap) as [consts h0] eqn:El. cbn [fst] in Hv.
+  destruct (verify_check _ Hv) as [c Hc].
+  destruct (run_loop orc (mkProgram (b_code bc) consts) budget (vm_start vm_new consts h0)) as [[r s] k] eqn:Er.
+  cbn [o_result] in Hr.
+  eapply (run_never_leaves_memory orc _ c Hc budget _ (inv_fresh_start _ c consts h0 Hc
+            (load_consts_heap_ok c _ _ _ _ El (heap_ok_empty c)))); [exact Er|exact Hr].
+Qed.
+
+(** * Non-vacuity: a compiled program with a function call and a loop passes the verifier *)
+
+Definition ex_unicode : unicode := mkUnicode (fun _ => false) (fun _ => false).
+Definition ex_oracle : oracle := mkOracle (fun _ => []) (fun _ => None) (fun x _ => x).
+Definition ex_source : string :=
+  "functie som(n) { stel i = 0; stel t = 0; zolang i < n { i += 1; als i == 3 { volgende } t = t + i } antwoord t } print(som(10)); stel a = [som(2), [3]]; a[0]".
+
+Definition ex_program : option program :=
+  match front ex_unicode ex_oracle (str_cps ex_source) with
+  | Ok bc => Some (mkProgram (b_code bc) (fst (load_consts (b_constants bc) empty_heap)))
+  | _ => None
+  end.
+
+Example ex_verified : option_map verify ex_program = Some true.
+Proof. vm_compute. reflexivity. Qed.
+
+Example ex_has_call_and_loop :
+  match ex_program with
+  | Some p => existsb (Z.eqb (byte_of_opcode OCall)) (p_code p) && existsb (Z.eqb (byte_of_opcode OJump)) (p_code p)
+              && existsb (fun v => match v with VFun _ _ => true | _ => false end) (p_consts p)
+  | None => false
+  end = true.
+Proof. vm_compute. reflexivity. Qed.
+
+(* the hypotheses of verify_sound / run_never_leaves_memory are satisfiable for it *)
+Example ex_inv : exists p c, ex_program = Some p /\ check p c = true /\ Inv p c (vm_start vm_new (p_consts p) empty_heap).
+Proof.
+  destruct ex_program as [p|] eqn:E; [|vm_compute in E; discriminate E].
+  assert (Hv : verify p = true).
+  { pose proof ex_verified as H. rewrite E in H. cbn [option_map] in H. inversion H as [H1]. rewrite H1. reflexivity. }
+  destruct (verify_check _ Hv) as [c Hc]. exists p, c. split; [reflexivity|]. split; [exact Hc|].
+  apply inv_fresh_start; [exact Hc|apply heap_ok_empty].
+Qed.
+
+(* the verifier rejects code that would pop from the empty stack *)
+Example ex_rejected : verify (mkProgram [byte_of_opcode OPop; byte_of_opcode OHalt] []) = false.
+Proof. vm_compute. reflexivity. Qed.
+
+Print Assumptions verify_sound.
+Print Assumptions run_never_leaves_memory.
+Print Assumptions inv_initial.
+Print Assumptions verified_program_never_leaves_memory.
+Print Assumptions ex_inv.
